@@ -12,11 +12,13 @@ import contracts.builders as BU
 import contracts.modifiers as MDc
 import contracts.form_builder as FBc
 import contracts.species as SPc
+import contracts.potable_cli as CLIc
 
 F_CP, F_MOD = CE.F_CP, CE.F_MOD
 FUNCTIONS = [(F_CP, '_TableFormSection._parse_data'), (F_CP, '_TableFormSection._parse_xy'), (F_CP, '_TableFormSection._parse_x_y'), (F_MOD, '_Buck4_Spline_Factory.build_spline'), (F_MOD, '_Exp_Spline_Factory.build_spline'),
              (F_CP, '_TabulationCutoff._init_cutoff'), (FC.FILE, 'DLPOLY_PairTabulationFactory.extract_cutoffs'), (FC.FILE, 'LAMMPS_PairTabulationFactory.extract_cutoffs'),
-             (F_MOD, 'spline'), (F_MOD, 'trans'), (FBc.F_PFB, 'Potential_Form_Builder._make_multi_range_tuple'), (FBc.F_PFB, 'Potential_Form_Builder.create_potential_function'), (F_CP, 'ConfigParser._convert_species_type'), (F_CP, 'ConfigParser.species'), (BU.FILE, 'Pair_Potentials_From_Tuples_Builder._create_potential'), (BU.FILE, 'Pair_Potentials_From_Tuples_Builder._init_potentials')]
+             (F_MOD, 'spline'), (F_MOD, 'trans'), (FBc.F_PFB, 'Potential_Form_Builder._make_multi_range_tuple'), (FBc.F_PFB, 'Potential_Form_Builder.create_potential_function'), (F_CP, 'ConfigParser._convert_species_type'), (F_CP, 'ConfigParser.species'), (BU.FILE, 'Pair_Potentials_From_Tuples_Builder._create_potential'), (BU.FILE, 'Pair_Potentials_From_Tuples_Builder._init_potentials'),
+             (CLIc.F_CLI, 'main')]      # potable: a configuration error becomes a usage error ('configuration error - ...'), never a traceback
 SPECSEQS = [FBc.chain_ranges, SPc.stripped]
 CONFIG_FILES = scan.package_files('atsim/potentials/config') + ['atsim/potentials/_modifiers.py', 'atsim/potentials/tools/potable/__init__.py', 'atsim/potentials/tools/potable/_actions.py']
 
@@ -67,6 +69,8 @@ def lemmas():
     return out
 
 MUTANTS = [
+    (CLIc.F_CLI, 'main', "except ConfigurationException as e:", "except ValueError as e:", 'raises'),
+    (CLIc.F_CLI, 'main', "p.error('configuration error - {}'.format(e))", "raise", 'raises'),
     (F_CP, '_TableFormSection._parse_x_y', "if len(x) != len(y):", "if len(x) < len(y):", 'post'),
     (F_CP, '_TableFormSection._parse_x_y', "y = [float(v) for v in y_string.split()]\n    except ValueError as e:", "y = [float(v) for v in y_string.split()]\n    except KeyError as e:", 'raises'),
     (FBc.F_PFB, 'Potential_Form_Builder._make_multi_range_tuple', "except KeyError as e:\n            raise UnknownModifierException(*e.args)", "except ValueError as e:\n            raise UnknownModifierException(*e.args)", 'raises'),
